@@ -67,6 +67,18 @@ static const char* kConfig = R"JSON({
  ]
 })JSON";
 
+// variant 1: every plugin addresses the second level only ("w2/*"), so the parent w2 is never looked at before one
+// of its children needs it (memory protection / effective usage are normalised against the parent)
+static const char* kConfigDeep = R"JSON({
+ "rulesets": [
+  {"name": "deep", "post_action_delay": "0",
+   "detectors": [["above", {"name": "memory_above", "args": {"cgroup": "w2/*", "threshold": "1", "duration": "0"}}]],
+   "actions": [{"name": "dump_cgroup_overview", "args": {"cgroup": "w2/*", "always": "true"}},
+               {"name": "kill_by_swap_usage", "args": {"cgroup": "w2/*", "threshold": "0", "biased_swap_kill": "true", "dry": "true", "always_continue": "true"}},
+               {"name": "kill_by_memory_size_or_growth", "args": {"cgroup": "w2/*", "dry": "true"}}]}
+ ]
+})JSON";
+
 struct Scenario {
   SimFs fs;
   std::string proc;
@@ -112,7 +124,7 @@ struct Scenario {
   }
 };
 
-struct Fault { std::string kind; std::string file; int k = 0; std::string cg; };
+struct Fault { std::string kind; std::string file; int k = 0; std::string cg; int variant = 0; };
 
 static void onAlarm(int) {
   evEmitRaw("{\"e\":\"Abort\",\"why\":\"hang\",\"detail\":\"watchdog\"}");
@@ -128,7 +140,7 @@ static int execute(uint64_t seed, int scn, const Fault& f, std::vector<std::stri
   vclockEnable(true); vclockSet(1000000);
   S.render(1);
   Oomd::Config2::JsonConfigParser parser;
-  auto ir = parser.parse(kConfig);
+  auto ir = parser.parse(f.variant == 1 ? kConfigDeep : kConfig);
   Oomd::PluginConstructionContext pcc(S.fs.root());
   auto engine = Oomd::Config2::compile(*ir, pcc);
   if (!engine) { fprintf(stderr, "config did not compile\n"); _exit(3); }
@@ -177,7 +189,10 @@ static int execute(uint64_t seed, int scn, const Fault& f, std::vector<std::stri
   signal(SIGALRM, onAlarm);
   alarm(30);
   for (int tick = 1; tick <= 2; tick++) {
-    if (tick == 2) { vclockAdvance(5000); busy = true; S.render(2); busy = false; inFault = true; counter = 0; }
+    // variant 0: faults in the second tick (warm caches); variant 1: in the FIRST tick (nothing cached yet)
+    if (tick == 2) { vclockAdvance(5000); busy = true; S.render(2); busy = false; }
+    if (tick == (f.variant == 1 ? 1 : 2)) { inFault = true; counter = 0; }
+    if (tick == 2 && f.variant == 1 && accessLog) inFault = false;   // the baseline of variant 1 lists tick 1 only
     evEmit(J().str("e", "TickBegin").num("tick", tick));
     oomd.updateContext();
     oomd.engine_->prerun(oomd.ctx_);
@@ -244,7 +259,7 @@ int main(int argc, char** argv) {
       Oomd::Log::get(-1, sink, true);
       Oomd::Stats::init(tmpd + "/vstats." + std::to_string(getpid()) + ".sock");
       evEmit(J().str("e", "SReset").num("scn", scn).num("seed", (long long)seed).num("idx", idx)
-                 .raw("fault", J().str("kind", f.kind).str("file", f.file).num("k", f.k).str("cg", f.cg).done()));
+                 .raw("fault", J().str("kind", f.kind).str("file", f.file).num("k", f.k).str("cg", f.cg).num("variant", f.variant).done()));
       std::vector<std::string> log;
       int n = execute(seed, scn, f, f.kind == "none" ? &log : nullptr);
       evEmit(J().str("e", "SEnd").num("accesses", n));
@@ -267,9 +282,9 @@ int main(int argc, char** argv) {
   for (int scn = firstScn; scn < firstScn + nScn; scn++) {
     int idx = 0;
     if (only) {
-      Fault f; char kind[64] = "", file[128] = "", cg[64] = ""; int k = 0;
-      sscanf(only, "%63[^:]:%127[^:]:%d:%63s", kind, file, &k, cg);
-      f.kind = kind; f.file = file[0] == '-' ? "" : file; f.k = k; f.cg = cg[0] == '-' ? "" : cg;
+      Fault f; char kind[64] = "", file[128] = "", cg[64] = ""; int k = 0, variant = 0;
+      sscanf(only, "%63[^:]:%127[^:]:%d:%63[^:]:%d", kind, file, &k, cg, &variant);
+      f.kind = kind; f.file = file[0] == '-' ? "" : file; f.k = k; f.cg = cg[0] == '-' ? "" : cg; f.variant = variant;
       runChild(scn, f, 0);
       continue;
     }
@@ -288,6 +303,13 @@ int main(int argc, char** argv) {
     for (int k = 1 + r.upto(stride); k <= K; k += stride)
       for (auto kind : {"remove", "recreate"})
         for (auto cg : {"w1", "w2", "w2/c1"}) if (stride == 1 || r.chance(50)) runChild(scn, Fault{kind, "", k, cg}, idx++);
+    // variant 1 (second-level patterns only): every access index, the parent or a child removed / re-created
+    runChild(scn, Fault{"none", "", 0, "", 1}, idx++);
+    int K1 = 0;
+    { FILE* a = fopen((tmpd + "/tick.accesses").c_str(), "r"); char b[4096]; while (a && fgets(b, sizeof b, a)) K1++; if (a) fclose(a); }
+    for (int k = 1; k <= K1; k++)
+      for (auto kind : {"remove", "recreate"})
+        for (auto cg : {"w2", "w2/c1"}) runChild(scn, Fault{kind, "", k, cg, 1}, idx++);
   }
   return 0;
 }
